@@ -304,6 +304,20 @@ def call_boundary():
         s.on_boundary(w)
 
 
+def io_point(*_ev):
+    """Called by the file-system seam right BEFORE an operation on the simulated tree takes effect. Under the
+    'io_sync' schedule this is where (and the only place where) another thread may be chosen, so the order of
+    opens / closes / renames of different threads is what the seeded search enumerates - the interleavings that
+    matter for races through files (temporary names, check-then-act on existence, partial writes)."""
+    s = CURRENT
+    if s is None or s.kind != "io_sync" or s.aborted:
+        return
+    w = s.by_ident.get(_thread.get_ident())
+    if w is not None and w is s.current:
+        w.where = ("<file system>", 0)
+        s._yield(w)
+
+
 class Worker:
     __slots__ = ("idx", "fn", "sem", "thread", "done", "blocked_on", "result", "steps", "where", "at_boundary")
 
@@ -386,6 +400,8 @@ class Scheduler:
             return self.rng.choice(run), self.rng.choice(self.BUDGETS)
         if k == "roundrobin":
             return run[0], 1 << 60
+        if k == "io_sync":
+            return self.rng.choice(run), 1 << 60  # runs until its next file-system operation (or the end)
         if k == "entry_sync":
             if self._phase == "fine":
                 if self.steps < self._fine_until:
